@@ -197,8 +197,13 @@ package codegen
 //@   pure
 //@ family exec [C13,C12]
 //@   ensures calls(GetOperationContext) == 1
-//@ family exec$closure(@returned) [C13,C12]
+// C04/C05: the payload of a deferred group is serialized - user marshalers run in there and may panic - only after the
+// group was taken off the pending count: a handler that is called again after such a panic (the streamed transports
+// go on with the next payload) must not wait for a group that was already received
+//@ family exec$closure(@returned) [C13,C12,C04,C05]
 //@   callsite MarshalGQL: requires argownaddr0
+//@   callsite MarshalGQL: requires calls(AddInt32) == calls(recv)
+//@   callsite AddInt32: requires arg1 == 0 - 1 && calls(recv) == calls(AddInt32) + 1
 //@   replay subscriptionMultipart.go.tmpl for argownaddr0
 // C01 (every exec layout): when the schema has a FIELD-location directive the generated package holds the dispatcher
 // _fieldMiddleware; then every field function that resolves anything goes through it - never straight to
